@@ -41,6 +41,14 @@ CHECKS.update({
    TRUST + " Factors 1/4,1/2,2,3,1; dyadic weights.", SK, "6 (C16)"),
 })
 
+WR = "TLA+ spec of the documented wire format (Wire.tla) + TLC enumeration of streams + independent serializer feeding the real decoders; real encodings tokenised and validated by TLC (Trace_Wire.tla)"
+CHECKS.update({
+ "C07": ("wire", "TLC enumerates every stream of up to 3-5 documented blocks (all three bin layouts, N=0, negative/zero/large strides, repeated indexes and blocks, statistics blocks, any order) and checks W_OrderIrrelevant, W_StatsIgnoredByPlain, W_ConcatIsMerge, W_FoldedTargets; each stream is serialised by an independent writer and decoded by the real decoders into every store kind: the content must equal what Wire.tla assigns. Producer side: thousands of real encodings (all store kinds, both variants, all mappings) are tokenised by an independent tokenizer and TLC checks the documented meaning of their blocks equals the source content.",
+   TRUST + " wirefmt.go (the independent writer/tokenizer) is part of the trusted base and is itself validated against Varint.tla vectors.", WR, "6 (C07)"),
+ "C08": ("wire", "For every enumerated stream (incl. undefined flags, conflicting mapping blocks, mapping-less streams) and thousands of real encodings, EVERY byte prefix is fed to every real decoder: a cut strictly inside a block must be an error, a cut at a boundary must behave like the shorter stream as classified by Wire.tla (W_Errors), and nothing may panic.",
+   TRUST + " Only error vs success (and the content on success) is compared, not which error.", WR, "6 (C08)"),
+})
+
 NA = {
  "C03": "pure float64 numerics of one function over ~2^62 inputs; TLC has no floating point and 32-bit integers, so a TLA+ model would only be a test enumerator with the oracle in Go (DESIGN.md section 7)",
 }
@@ -76,6 +84,8 @@ m = {
  "engines": [
    {"name": "sketch", "path": "spec/Sketch.tla spec/StoreOps.tla spec/MC_Sketch.tla spec/Gen_Sketch.tla harness/cmd/vcheck/sketch*.go harness/cmd/vcheck/rel.go",
     "serves_properties": ["C01", "C02", "C10", "C11", "C12", "C13", "C14", "C15", "C16"], "kind_free_text": "TLA+ specification of DDSketch / DDSketchWithExactSummaryStatistics over value tokens; TLC model checking; behaviours replayed on real sketches"},
+   {"name": "wire", "path": "spec/Wire.tla spec/Gen_Wire.tla spec/Trace_Wire.tla harness/cmd/vcheck/wire.go harness/cmd/vcheck/wirefmt.go",
+    "serves_properties": ["C07", "C08"], "kind_free_text": "TLA+ specification of the documented block format; TLC enumerates streams; independent serializer/tokenizer binds it to the real encoder and decoders"},
    {"name": "store", "path": "spec/Store.tla spec/IndexMap.tla spec/MC_Store.tla spec/Gen_Store.tla spec/Trace_Store.tla harness/cmd/vcheck/store*.go",
     "serves_properties": ["C04", "C05"], "kind_free_text": "TLA+ specification of the bin stores; TLC model checking; behaviours replayed on real stores; recorded traces validated by TLC"},
  ],
